@@ -356,10 +356,21 @@ def flags(run, p):
         ok = sorted(calls, key=repr) == sorted(((k, True) for k in want), key=repr)
         run.ob('C10-FLAGS', 'pytest options=%s' % sorted(opts), ok,
                'pytest %s: set_regeneration calls %s (expected %s)' % (opts, calls, [(k, True) for k in want]), fn=r)
-    # every option the fixtures read is declared by addoption
+    # every option the fixtures read is declared by addoption (evaluated against a recording parser)
     ao = p.fn('tdda.referencetest.referencepytest.addoption')
-    adds = {x.args[0].value for x in p.own_nodes(ao) if isinstance(x, ast.Call) and isinstance(x.func, ast.Attribute) and x.func.attr == 'addoption'
-            and x.args and isinstance(x.args[0], ast.Constant)}
+
+    class Parser(Model):
+        def __init__(self):
+            self.names = []
+
+        def addoption(self, *names, **kw):
+            self.names += list(names)
+    parser = Parser()
+    try:
+        Interp(p).call(ao, [parser])
+    except (Unsupported, Raised) as e:
+        raise AnalysisError('referencepytest.addoption is not evaluable: %s' % e)
+    adds = set(parser.names)
     for opt in sorted(asked):
         n += 1
         run.ob('C10-FLAGS', 'pytest declares %s' % opt, opt in adds, 'option %s read by the fixture is %s by addoption' % (opt, 'declared' if opt in adds else 'NOT declared'),
